@@ -716,6 +716,11 @@ class _Expr:
                 jj = z3.Int('in_jj')
                 return z3.Exists([jj], z3.And(0 <= jj, jj < Length(s), py_eq(s[jj], it.t)))
             return Contains(s, it.t)
+        if k == 'obj' and self.proc.locals.get('$containers') and self.proc.locals.get('$in_uses_eq'):
+            # a tuple value or a list object, decided dynamically; `in` compares with == (identity first)
+            s, et = self.seqterm(st, container, node)
+            jj = z3.Int('in_jj')
+            return z3.Exists([jj], z3.And(0 <= jj, jj < Length(s), py_eq(s[jj], box(item))))
         if k == 'obj':
             h = CONTAINS_HOOK.get('default')
             if h:
@@ -1443,7 +1448,14 @@ class _Stmts:
             (s2, idx), = self.ev(tgt.slice, st)
             if base.ty.kind == 'dict':
                 m = self.dictval(st, base.t)
+                before = st.heap.get('$dict')
                 self.set_dictval(st, base.t, z3.Store(m, box(idx), box(v)))
+                hook = getattr(self.proc, 'on_dict_store', None)
+                if hook is not None:
+                    # ghost: the contract may supply GROUND INSTANCES of lemmas that are themselves proved on every run
+                    # (it gets the heap before and after the store); it must not constrain the program state otherwise
+                    for fact in hook(self, st, before, base.t, box(idx), box(v)) or ():
+                        st.assume(fact)
             elif base.ty.kind == 'list':
                 cur = self.listval(st, base.t)
                 i = self.coerce(idx, INT).t
